@@ -44,6 +44,8 @@ type c12Case struct {
 	Params    string `json:"params,omitempty"` // "" = none
 	Builtin   string `json:"builtin,omitempty"`
 	Arg       string `json:"arg,omitempty"`
+	// Flags: "" | m (the call sets more) | o (the call is oneway: nothing may come back, the refusal of a bad name still reaches the handler)
+	Flags string `json:"flags,omitempty"`
 }
 
 // c12Model: DESIGN A.4. refused / accepted / unspecified (empty member part).
@@ -61,9 +63,67 @@ func c12Model(name string) string {
 	return "accepted"
 }
 
+// c12Oneway: the same handler behaviour under a oneway call. Nothing comes back for the call; a following GetInfo gets its
+// own reply; a name that must be refused is refused (the handler sees the error), one that is accepted returns nil.
+func c12Oneway(r *fw.Run, p *Pair, c *c12Case) {
+	report := func(class, detail string) {
+		r.Violation("C12 "+class, fmt.Sprintf("transport %s, oneway call: %s", c.Transport, detail), c)
+	}
+	p.Proxy.TakeConns()
+	p.Rig.Log.Take()
+	ctx, cancel := context.WithTimeout(context.Background(), 60*time.Second)
+	defer cancel()
+	conn, err := p.Connect(ctx)
+	if err != nil {
+		r.Inconclusive("connect: %v", err)
+		return
+	}
+	st := Step{Op: "error", Name: c.Name, NoPar: c.Params == "", Raw: json.RawMessage(c.Params)}
+	cs := &CallScript{ID: "e", Steps: []Step{st, {Op: "reply", Raw: json.RawMessage(`{"final":true}`)}}}
+	if _, err := conn.Send(ctx, "org.example.script.Fail", cs, varlink.Oneway); err != nil {
+		report("send-failed", err.Error())
+		conn.Close()
+		return
+	}
+	var vendor string
+	berr := conn.GetInfo(ctx, &vendor, nil, nil, nil, nil)
+	conn.Close()
+	pcs := p.Proxy.TakeConns()
+	if len(pcs) != 1 || !pcs[0].Wait(30*time.Second) {
+		r.Inconclusive("proxy capture incomplete")
+		return
+	}
+	p.Rig.WaitIdle(20 * time.Second)
+	evs, _ := p.Rig.Log.Take()
+	stepRes := ""
+	for _, e := range evs {
+		if e.Kind == "step" && e.Step == 0 && e.CallID == "e" {
+			stepRes = e.Res
+		}
+	}
+	_, s2c := pcs[0].Captured()
+	frames, _ := splitFrames(s2c)
+	if berr != nil || len(frames) != 1 {
+		report("oneway-answered", fmt.Sprintf("ReplyError(%q) under a oneway call: the following GetInfo returned %v and %d frames came back (expected its single reply): %q", c.Name, berr, len(frames), clip(string(s2c), 300)))
+		return
+	}
+	want := c12Model(c.Name)
+	switch {
+	case want == "refused" && stepRes != "err":
+		report("refused-name-not-refused", fmt.Sprintf("error name %q must be refused: ReplyError returned %q to the handler", c.Name, stepRes))
+	case want == "accepted" && stepRes != "nil":
+		report("valid-name-refused", fmt.Sprintf("error name %q is of the form <interface>.<Name> outside org.varlink.service but ReplyError returned an error", c.Name))
+	}
+	r.Count("oneway_error_replies", 1)
+}
+
 func c12One(r *fw.Run, p *Pair, c *c12Case) {
 	report := func(class, detail string) {
 		r.Violation("C12 "+class, fmt.Sprintf("transport %s: %s", c.Transport, detail), c)
+	}
+	if c.Flags == "o" {
+		c12Oneway(r, p, c)
+		return
 	}
 	p.Proxy.TakeConns()
 	p.Rig.Log.Take()
@@ -81,7 +141,11 @@ func c12One(r *fw.Run, p *Pair, c *c12Case) {
 		st = Step{Op: "error", Name: c.Name, NoPar: c.Params == "", Raw: json.RawMessage(c.Params)}
 	}
 	cs := &CallScript{ID: "e", Steps: []Step{st, {Op: "reply", Raw: json.RawMessage(`{"final":true}`)}}}
-	recv, err := conn.Send(ctx, "org.example.script.Fail", cs, 0)
+	var sendFlags uint64
+	if c.Flags == "m" {
+		sendFlags = varlink.More
+	}
+	recv, err := conn.Send(ctx, "org.example.script.Fail", cs, sendFlags)
 	if err != nil {
 		report("send-failed", err.Error())
 		conn.Close()
@@ -263,10 +327,16 @@ func runC12(r *fw.Run) {
 		if r.ViolationCount() > 12 {
 			break
 		}
+		switch {
+		case k%5 == 3 && c.Builtin == "":
+			c.Flags = "o"
+		case k%5 == 4:
+			c.Flags = "m"
+		}
 		r.Journal(0, c)
 		c12One(r, p, c)
 		r.Done(0)
-		r.Case(fw.Hash(c.Name, c.Params, c.Builtin, c.Arg), true)
+		r.Case(fw.Hash(c.Name, c.Params, c.Builtin, c.Arg, c.Flags), true)
 		if c.Builtin == "" {
 			r.Distinct("error_names", c.Name)
 		}
@@ -300,7 +370,7 @@ func replayC12(r *fw.Run, raw json.RawMessage) {
 func init() {
 	fw.Register(&fw.Engine{
 		ID: "C12", Level: "exploration",
-		Rule: "a case = (error name, parameters or none) sent by a scripted handler with Call.ReplyError, followed by a final plain reply, observed by a real Connection (Send + receive) through a recording proxy; names: 31 fixed ones (the reserved namespace and its near-misses in both directions, dot-less, empty, leading/trailing/doubled dots, unicode, NUL, 5000 characters) and random joins of 1..5 parts from a pool incl. empty parts, optionally prefixed with org.varlink.service; parameters: generated JSON objects (hostile strings, big numbers) or none. Oracle from the statement (A.4): name with a last dot at index > 0 whose prefix is not org.varlink.service => ReplyError returns nil, the client's error is *varlink.Error with exactly that name (also on the wire) and number-exact JSON-equal parameters (none stays none); dot-less names and org.varlink.service.<Name> => ReplyError returns an error, the proxy saw no frame for that step and the client's first receive is the final reply; empty member part: consistency only. Every 7th case: one of the four built-in helpers with a Unicode argument => the client gets the dedicated typed error carrying exactly that string. distinct by hash of the case.",
+		Rule: "a case = (error name, parameters or none) sent by a scripted handler with Call.ReplyError, followed by a final plain reply, observed by a real Connection (Send + receive) through a recording proxy; names: 31 fixed ones (the reserved namespace and its near-misses in both directions, dot-less, empty, leading/trailing/doubled dots, unicode, NUL, 5000 characters) and random joins of 1..5 parts from a pool incl. empty parts, optionally prefixed with org.varlink.service; parameters: generated JSON objects (hostile strings, big numbers) or none. Oracle from the statement (A.4): name with a last dot at index > 0 whose prefix is not org.varlink.service => ReplyError returns nil, the client's error is *varlink.Error with exactly that name (also on the wire) and number-exact JSON-equal parameters (none stays none); dot-less names and org.varlink.service.<Name> => ReplyError returns an error, the proxy saw no frame for that step and the client's first receive is the final reply; empty member part: consistency only. Every 7th case: one of the four built-in helpers with a Unicode argument => the client gets the dedicated typed error carrying exactly that string. distinct by hash of the case. A fifth of the cases are sent under a call that sets more, a fifth under a oneway call (nothing may come back, a following GetInfo gets its own reply, the refusal of a bad name still reaches the handler).",
 		Assumptions: []string{"names with an empty part after the last dot are outside what the statement fixes"},
 		Run:         runC12, Replay: replayC12, CrashIsViolation: true, MinEvals: 100,
 		QuickTimeout: 15 * time.Minute, ThoroughTimeout: 60 * time.Minute,
